@@ -24,7 +24,8 @@ RULE = ("universe of 4-8 objects (1-3 Workflows, 0-3 empty Macros, leaves; label
         "strict_naming override), attribute assignment, construction with parent=, parent assignment "
         "(composite/None/non-composite), remove_child by instance/label, replace_child by instance/label, "
         "marking starting nodes; ~75% of the operations are biased towards being applicable, the rest is "
-        "arbitrary (clashes, second parents, cycles, workflows as children, reserved names). Non-trivial = some "
+        "arbitrary (clashes, second parents, cycles, workflows as children, reserved names); a history is abandoned "
+        "at the first operation after which the property fails on the implementation. Non-trivial = some "
         "operation changed the ownership state; distinct = distinct (universe, history)")
 TRUSTED = ["dir(composite) restricted to the label pool is passed to the model as its `reserved` table",
            "replace_child is exercised on unconnected nodes only (copy_io / value links have nothing to do)"]
@@ -105,7 +106,13 @@ def gen_ops(rng, nodes, n_ops):
     nonwf = [i for i, n in enumerate(nodes) if n[0] != "W"]
     sim = _Sim(nodes)
     ops = []
-    anyn = lambda: rng.randrange(N)
+    last_add = None
+
+    def anyn(avoid_wf=False):
+        i = rng.randrange(N)
+        if avoid_wf and nodes[i][0] == "W" and rng.random() < 0.75:
+            i = rng.randrange(N)
+        return i
     lab = lambda: rng.choice(POOL if rng.random() < 0.5 else POOL[:8])
     for _ in range(n_ops):
         wild = rng.random() < 0.25
@@ -115,14 +122,19 @@ def gen_ops(rng, nodes, n_ops):
         orphans = [i for i in nonwf if sim.par[i] is None and i != p]
         kids = sim.kids(p)
         if k == "add":
-            c = anyn() if wild or not orphans else rng.choice(orphans + kids if rng.random() < 0.3 else orphans)
+            c = anyn(True) if wild or not orphans else rng.choice(orphans + kids if rng.random() < 0.3 else orphans)
             lb = lab() if rng.random() < 0.45 else None
             sn = rng.choice([None, None, True, False])
+            if last_add is not None and rng.random() < 0.3:   # burst: same composite, same label, suffixing
+                p, lb, sn = last_add[0], last_add[1], False
+                orphans = [i for i in nonwf if sim.par[i] is None and i != p]
+                c = rng.choice(orphans) if orphans else c
+            last_add = (p, lb if lb is not None else sim.lab[c])
             ops.append(["add", p, c, lb, sn])
             if not wild:
                 sim.par[c] = p
         elif k == "setattr":
-            c = anyn() if wild or not orphans else rng.choice(orphans + kids if rng.random() < 0.3 else orphans)
+            c = anyn(True) if wild or not orphans else rng.choice(orphans + kids if rng.random() < 0.3 else orphans)
             key = lab() if rng.random() < 0.9 else "parent"
             ops.append(["setattr", p, key, c])
             if not wild and key != "parent":
@@ -149,13 +161,13 @@ def gen_ops(rng, nodes, n_ops):
             ops.append(["rml", p, l])
         elif k == "rpi":
             o = anyn() if wild or not kids else rng.choice(kids)
-            r = anyn() if wild or not orphans else rng.choice(orphans)
+            r = anyn(True) if wild or not orphans else rng.choice(orphans)
             ops.append(["rpi", p, o, r])
             if not wild and sim.par[o] == p:
                 sim.par[o], sim.par[r] = None, p
         elif k == "rpl":
             l = lab() if wild or not kids else sim.lab[rng.choice(kids)]
-            r = anyn() if wild or not orphans else rng.choice(orphans)
+            r = anyn(True) if wild or not orphans else rng.choice(orphans)
             ops.append(["rpl", p, l, r])
         else:
             c = anyn() if wild or not kids else rng.choice(kids)
@@ -245,7 +257,7 @@ def run_impl(case):
         elif k == "new":
             _, c, l, p = op
             o = objs[c]
-            if (p == c or nodes[c][0] == "W" or o._parent is not None or (is_comp[c] and (len(o._children) or o.starting_nodes))
+            if (p == c or (is_comp[c] and not is_comp[p]) or nodes[c][0] == "W" or o._parent is not None or (is_comp[c] and (len(o._children) or o.starting_nodes))
                     or listed(o)):
                 return "skip"
             objs[c] = _make(nodes[c][0], l, nodes[c][2], parent=objs[p], fresh=True)
@@ -292,7 +304,17 @@ def run_impl(case):
         except Exception as e:   # the library's refusals (and RecursionError)
             r = type(e).__name__
         obs.append([r, snap()])
+        if first_failure(case, obs[-2:], base=len(obs) - 2) is not None:
+            break     # the property is violated: the rest of the history is not explored (see RULE)
+    _EXECUTED[_ckey(case)] = len(obs) - 1
     return obs
+
+
+_EXECUTED: dict[str, int] = {}
+
+
+def _ckey(case):
+    return json.dumps([case["nodes"], case["ops"]])
 
 
 # ---- model term ------------------------------------------------------------------------------
@@ -335,7 +357,9 @@ def op_coq(op):
 
 
 def model_term(case):
-    nodes, ops = case["nodes"], case["ops"]
+    if _ckey(case) not in _EXECUTED:
+        run_impl(case)
+    nodes, ops = case["nodes"], case["ops"][:_EXECUTED[_ckey(case)]]
     kinds = cl(_KIND[k] for k, _, _ in nodes)
     labels = cl(cs(l) for _, l, _ in nodes)
     stricts = cl(cb(s) for _, _, s in nodes)
@@ -394,23 +418,28 @@ def check_snapshot(nodes, snap):
     return None
 
 
-def first_failure(case, obs):
+def first_failure(case, obs, base=0):
+    """(step, signature, detail) of the first snapshot violating the property, else None.
+    obs[0] is a bare snapshot when base == 0, otherwise a [result, snapshot] pair."""
     nodes = case["nodes"]
-    if not isinstance(obs, list):
+    if not isinstance(obs, list) or not obs:
         return 0, "driver", "no observation"
-    bad = check_snapshot(nodes, obs[0])
-    if bad:
-        return 0, bad[0], bad[1]
-    prev = obs[0]
+    if base == 0:
+        bad = check_snapshot(nodes, obs[0])
+        if bad:
+            return 0, bad[0], bad[1]
+        prev = obs[0]
+    else:
+        prev = obs[0][1]
     for t in range(1, len(obs)):
         res, snap = obs[t]
         bad = check_snapshot(nodes, snap)
         if bad:
-            return t, bad[0], bad[1]
+            return base + t, bad[0], bad[1]
         if res not in ("ok", "skip") and snap != prev:
-            return t, "rejected-not-noop", f"raised {res} but changed the ownership state"
+            return base + t, "rejected-not-noop", f"raised {res} but changed the ownership state"
         if res == "skip" and snap != prev:
-            return t, "driver", "skipped operation changed the state"
+            return base + t, "driver", "skipped operation changed the state"
         prev = snap
     return None
 
